@@ -282,8 +282,30 @@ def run_probe(c, probe):
                 dst[key] = src
                 other = dst[key]
             else:
-                dst.append(src)
-                other = dst[len(dt)]
+                how = r.choice(["append", "setitem", "insert", "iadd", "extend"])
+                if how == "setitem" and len(dt) == 0:
+                    how = "append"
+                if how == "append":
+                    dst.append(src)
+                    other = dst[len(dt)]
+                elif how == "setitem":
+                    i = r.randrange(len(dt))
+                    if probe == "assign_child_same" and dst_path == src_path[:-1] and src_path and src_path[-1] == i:
+                        return  # would assign the element onto itself
+                    dst[i] = src
+                    other = dst[i]
+                elif how == "insert":
+                    dst.insert(0, src)
+                    other = dst[0]
+                    if probe == "assign_child_same" and src_path[: len(dst_path)] == dst_path and len(src_path) > len(dst_path):
+                        # the source sits in this very list and has just been shifted by one
+                        src = _renav(c.a, src_path[: len(dst_path)] + [src_path[len(dst_path)] + 1] + src_path[len(dst_path) + 1:])
+                elif how == "iadd":
+                    dst += [src]
+                    other = dst[len(dt)]
+                else:
+                    dst.extend([src])
+                    other = dst[len(dt)]
         except Exception as e:  # noqa: BLE001
             V("unexpected_exception", f"assigning a synced collection raised {type(e).__name__}: {e}", entry=probe)
         src_before = copy.deepcopy(src())
@@ -300,6 +322,13 @@ def run_probe(c, probe):
               entry=probe, direction="source_to_copy")
         return
     raise AssertionError(probe)
+
+
+def _renav(root, path):
+    n = root
+    for k in path:
+        n = n[k]
+    return n
 
 
 def _mutate_any(x, tag="__hostile__"):
